@@ -79,7 +79,8 @@ CHECKS = {
     "C20": ("remote", "6 C20", "RemoteHandle.tla (encode/decode of [ty, owned, addr]) model-checked; every (type parameter, owned/borrowed, address) case "
             "replayed into the real Remote<T>; encoding, decoding of the prescribed literal and schema judged by TLC",
             "TLA+ spec + TLC (exhaustive small scope), replay into the real type, trace validation"),
-    "C12": ("multitest", "6 C12", "Multitest.tla (abstract chain: store / instantiate with options / exec / query / sudo / migrate) simulated by TLC into "
+    "C12": ("multitest", "6 C12", "Multitest.tla (abstract chain: store / instantiate with options / exec / query / sudo / migrate, plus the harness's own helpers "
+            "update_block / set_block / code_info) simulated by TLC into "
             "operation histories; each history applied through the generated proxies to one chain and as raw JSON to an identically seeded twin; "
             "after every operation views and results of both chains are judged by TLC against each other and against the machine",
             "TLA+ spec + TLC simulation, twin-chain replay, trace validation (Trace_Multitest)"),
